@@ -54,7 +54,7 @@ def concretise(job, unit, res, workdir, log):
             if (b[1] in scalars or b[1] in gnames) and b[1] not in count_ids:
                 count_ids.append(b[1])
         for ob in spec_fn.get('obj_buffers', []):
-            if ob[1] not in count_ids:
+            if ob[1] not in count_ids and re.fullmatch(r'[A-Za-z_][A-Za-z0-9_.]*', ob[1]):
                 count_ids.append(ob[1])
         import itertools
         combos = [dict()]
@@ -178,6 +178,75 @@ def concretise(job, unit, res, workdir, log):
         return out
 
 
+def validate_lowering(job, unit, workdir, seed, iters=20000):
+    """translation check on every run: the lowered C of the function under contract and the real C++ function are run natively on the same
+    random/boundary inputs (drawn under the contract's preconditions) and must agree on return value, out-parameters and buffers.
+    returns dict(fn, status ok|mismatch|skipped, executions, note)"""
+    fn = job['fn']
+    out = dict(fn=fn, status='skipped', executions=0, note='')
+    try:
+        ast = R.get_ast(workdir, unit['driver'], unit.get('defines', ()), unit.get('cflags', ()))
+        gspecs = {k: {kk: vv for kk, vv in v.items() if kk in ('ghost_returns',)} for k, v in job.get('specs', {}).items()}
+        text, lw = R.lowered_text(ast, job['roots'], gspecs, cuts=job.get('cuts', ()), line_directives=False, drop_contracts=True)
+        if fn not in lw.fn_info or not lw.fn_info[fn]['has_body']:
+            out['note'] = 'no body'
+            return out
+        ghosts = job.get('ghosts', [])
+        hg = RP.HarnessGen(lw, fn, job['specs'][fn], ghosts, K=6)
+        hg.always_both = True
+        hg.native_skip_ensures = True
+        htext = hg.build()
+        stubs = ''
+        stub_fns = []
+        for cn, inf in lw.fn_info.items():
+            if not inf['has_body']:
+                body = job.get('specs', {}).get(cn, {}).get('stub_body')
+                if body is None:
+                    out['note'] = 'no stub body for cut callee %s' % cn
+                    return out
+                stubs += lw.proto(inf['node']) + '\n{\n' + body + '\n}\n'
+                stub_fns.append(cn)
+        tdefs = 'typedef unsigned short qx_char16;\ntypedef unsigned int qx_char32;\ntypedef int qx_wchar;\n'
+        gtext = tdefs + ''.join('%s %s;\n' % (t, g) for t, g in ghosts)
+        jd = os.path.join(workdir, 'val_' + R.safe_name(fn) + '_' + R.safe_name('_'.join(unit.get('defines', ()))))
+        os.makedirs(jd, exist_ok=True)
+        nat_c = os.path.join(jd, 'validate.c')
+        with open(nat_c, 'w') as f:
+            f.write(RP.VALIDATE_PRE + gtext + job.get('native_pre', job.get('pre', '')) + '\n' + text + '\n' + job.get('extra', '') + '\n' + stubs + '\n' + htext +
+                    '\nint main(void) { qx_state ^= %dULL * 2654435761ULL; for (long i = 0; i < %d; i++) qx_harness();\n'
+                    '  printf("QX-VALIDATED done=%%lu skipped=%%lu mismatches=%%lu\\n", qx_done, qx_skipped, qx_mism); return qx_mism ? 1 : 0; }\n' % (seed + 1, iters))
+        wcpp = RP.wrapper_cpp(lw, os.path.join(VERIF, 'inst', unit['driver'].replace('.cpp', '.hpp')), [fn], stub_fns, ast=ast)
+        wfile = os.path.join(jd, 'wrapper.cpp')
+        with open(wfile, 'w') as f:
+            f.write(wcpp)
+        defs = ['-D' + d for d in unit.get('defines', ())]
+        rc1, o1 = RP.run(['gcc', '-std=gnu11', '-DQX_NATIVE', '-w', '-O1', '-c', nat_c, '-o', os.path.join(jd, 'v.o')], cwd=jd)
+        rc2, o2 = RP.run(['g++', '-std=c++17', '-w', '-O1', '-fno-access-control', '-I', R.INCLUDE, '-I', os.path.join(VERIF, 'inst'), '-c', wfile,
+                          '-o', os.path.join(jd, 'w.o')] + defs + list(unit.get('cflags', ())), cwd=jd)
+        if rc1 != 0 or rc2 != 0:
+            out['note'] = 'does not compile natively: ' + (o1 + o2)[-300:]
+            return out
+        rc3, o3 = RP.run(['g++', os.path.join(jd, 'v.o'), os.path.join(jd, 'w.o'), '-o', os.path.join(jd, 'validate')], cwd=jd)
+        if rc3 != 0:
+            out['note'] = 'does not link: ' + o3[-300:]
+            return out
+        rc4, o4 = RP.run([os.path.join(jd, 'validate')], timeout=120, cwd=jd)
+        m = re.search(r'QX-VALIDATED done=(\d+) skipped=(\d+) mismatches=(\d+)', o4)
+        if not m:
+            out['note'] = 'validation run crashed: rc=%s %s' % (rc4, o4[-200:])
+            return out
+        out['executions'] = int(m.group(1))
+        out['status'] = 'ok' if int(m.group(3)) == 0 else 'mismatch'
+        out['note'] = o4[-200:] if out['status'] == 'mismatch' else ''
+        return out
+    except (R.Undecided, LowerError) as e:
+        out['note'] = str(e)[:200]
+        return out
+    except Exception as e:
+        out['note'] = 'validation harness error: %r' % (e,)
+        return out
+
+
 def proto_only(text, lw, fn):
     return text
 
@@ -237,6 +306,22 @@ def run_property(pid, tier, seed, workdir, t0, a):
             canaries.append(c)
     all_jobs = [(j, j['unit']) for j in jobs] + [(c, c['unit']) for c in canaries]
     results = R.run_jobs(all_jobs, workdir, par=a.par, log=log)
+    # lowering validation (translation check), one native differential run per function under contract
+    vals = []
+    seen = set()
+    vjobs = []
+    for j in jobs:
+        key = (j.get('fn'), j['unit']['driver'], tuple(j['unit'].get('defines', ())))
+        if j.get('mode', 'dfcc') not in ('dfcc', 'harness') or key in seen or j.get('fn') not in j.get('specs', {}):
+            continue
+        seen.add(key)
+        vjobs.append(j)
+    from concurrent.futures import ThreadPoolExecutor as _TPE
+    with _TPE(max_workers=8) as ex:
+        vals = list(ex.map(lambda j: validate_lowering(j, j['unit'], workdir, seed), vjobs))
+    vbad = [v for v in vals if v['status'] == 'mismatch']
+    log('  lowering validation: %d functions, %d executions, %d mismatches, %d skipped' % (
+        len(vals), sum(v['executions'] for v in vals), len(vbad), sum(1 for v in vals if v['status'] == 'skipped')))
     main_res = [r for r in results if not r.job.get('is_canary')]
     can_res = [r for r in results if r.job.get('is_canary')]
     undecided = [r for r in main_res if r.status == 'undecided']
@@ -305,6 +390,9 @@ def run_property(pid, tier, seed, workdir, t0, a):
         log(l)
     # evidence
     ev = evidence(pid, tier, seed, m, main_res, can_res, time.time() - t0, len(violations), canary_bad, undecided)
+    ev['coverage']['lowering_validation'] = dict(functions=len(vals), executions=sum(v['executions'] for v in vals), mismatches=len(vbad),
+                                                 skipped=[dict(fn=v['fn'], why=v['note'][:160]) for v in vals if v['status'] == 'skipped'][:40],
+                                                 rule='lowered C and real C++ run natively on the same seeded random/boundary inputs that satisfy the preconditions; return value, out-parameters and buffers must be identical')
     os.makedirs(os.path.join(OUT, 'evidence'), exist_ok=True)
     if not a.jobs:
         with open(os.path.join(OUT, 'evidence', pid + '.json'), 'w') as f:
@@ -313,6 +401,10 @@ def run_property(pid, tier, seed, workdir, t0, a):
         log('VIOLATION property=%s replay=%s%s' % (pid, path, '' if rep else ' no-failing-input-found'))
     if violations:
         return 1
+    for v in vbad:
+        log('UNDECIDED lowering validation mismatch for %s: %s' % (v['fn'], v['note']))
+    if vbad and not violations:
+        return 2
     if undecided or canary_bad:
         for r in undecided:
             log('UNDECIDED %s: %s' % (r.name, r.reason[:600]))
